@@ -607,6 +607,10 @@ class Gen:
         elif r < 0.40 and L in ("JavaScript", "TypeScript"):
             self.labels.add("one_line_arrow")
             t = f"const {v}{self.n} = ({u}) => {u} + 1;"
+        elif r < 0.47 and r >= 0.43 and L == "Python":
+            self.labels.add("fstring_or_comprehension")
+            t = self.pick([f'{v} = f"{{{self.pick(NAMES)}({u})}} {{{u}!r:>{{w}}}}"', f"{v} = [{u} for {u} in {v}s if {self.pick(NAMES)}({u})]", f"{v} = {u} if {v} else None",
+                           f'{v} = f"({{{u}}}) {{{{literal}}}}"', f"{v} = {{{u}: {v} for {u} in {v}s}}"])
         elif r < 0.43 and L == "Python":
             self.labels.add("docstring_like")
             t = '"""' + self.pick([c for c in COMMENT_TEXTS if '"' not in c]) + '"""'
@@ -827,6 +831,13 @@ class Gen:
             elif r < 0.38 and L == "Python":
                 self.labels.add("annotated_param")
                 typed = f"{v}: int = {self.r.randint(0, 9)}"
+            elif r < 0.50 and r >= 0.42 and L in ("Java", "C", "C++", "C#", "TypeScript"):
+                self.labels.add("rich_param_types")
+                typed = self.pick({"Java": [f"String... {v}", f"final Map<String, List<Integer>> {v}", f"int[] {v}", f"final int {v}"],
+                                   "C": [f"const char *{v}", f"int {v}[]", f"struct node *{v}", f"unsigned long {v}"],
+                                   "C++": [f"const std::string& {v}", f"int {v}[]", f"std::map<int, int>& {v}", f"Foo* {v}"],
+                                   "C#": [f"params int[] {v}", f"ref int {v}", f"Dictionary<string, int> {v}", f"int? {v}"],
+                                   "TypeScript": [f"{v}?: number", f"{v}: number[]", f"{v}: Map<string, number>", f"...{v}: number[]"]}[L])
             elif r < 0.42 and L in ("Python", "JavaScript", "TypeScript"):
                 self.labels.add("nested_parens_in_params")
                 typed = {"Python": f"{v}=(1, (2, 3))", "JavaScript": f"{v} = (1 + (2 * 3))", "TypeScript": f"{v}: number = (1 + (2 * 3))"}[L]
@@ -857,6 +868,9 @@ class Gen:
             shapes = ["method"] if method else ["function", "function", "arrow"]
             shape = self.pick(shapes)
             f["shape"] = shape
+            if shape in ("function", "arrow") and depth == 0 and not method and self.chance(0.2):
+                f["prefix"] = "export" if shape == "arrow" or self.chance(0.7) else "export default"
+                self.labels.add("export_prefix")
             if shape == "function":
                 f["head"] = f"function {name}"
                 if self.chance(0.15):
@@ -964,7 +978,7 @@ class Gen:
         elif L == "C#":
             head = self.pick([f"public class {nm}", f"namespace Ns{self.n}", f"internal static class {nm}", f"public interface I{nm}"])
         elif L == "Java":
-            head = self.pick([f"public class {nm}", f"class {nm} extends Base", f"interface I{nm}", f"final class {nm} implements Runnable"])
+            head = self.pick([f"public class {nm}", f"class {nm} extends Base", f"interface I{nm}", f"final class {nm} implements Runnable", f"enum Kind{self.n}"])
         else:
             head = self.pick([f"class {nm}", f"class {nm} extends Base", f"export class {nm}"])
         is_iface = "interface" in head
@@ -974,12 +988,21 @@ class Gen:
             r = self.r.random()
             if is_iface:
                 items.append({"k": "s", "t": f"void {self.name()}(int a);"})
+                if L == "Java" and self.chance(0.4):
+                    self.labels.add("interface_default_method")
+                    dm = self.func(0, method=True)
+                    dm["prefix"] = "default void"
+                    dm.pop("suffix", None)
+                    items.append(dm)
             elif is_ns and r < 0.4 and depth < 2:
                 c = self.container(depth + 1)
                 if c:
                     items.append(c)
             elif r < 0.2:
                 items.append(self.field())
+                if L == "C#" and self.chance(0.5):
+                    self.labels.add("csharp_property")
+                    items.append({"k": "s", "t": self.pick([f"public int Prop{self.n} {{ get {{ return x; }} set {{ x = value; }} }}", f"public int Auto{self.n} {{ get; set; }}"])})
             elif r < 0.26 and L in ("Java", "C#", "JavaScript", "TypeScript") and items and items[-1]["k"] == "func":
                 self.labels.add("initialiser_block_after_method")
                 ihead = "static" if L != "Java" or self.chance(0.5) else ""
@@ -990,6 +1013,9 @@ class Gen:
                 items.append(self.func(0, method=not is_ns or L == "C#"))
         if L == "C++" and not is_ns and self.chance(0.5):
             items.insert(0, {"k": "s", "t": self.pick(["public:", "private:"])})
+        if head.startswith("enum "):
+            self.labels.add("java_enum")
+            items.insert(0, {"k": "s", "t": "FIRST, SECOND(2), THIRD;"})
         if L == "Python" and not any(n["k"] not in ("blank", "cmt") for n in items):
             items.append(self.field())
         node = {"k": "cont", "head": head, "items": items, "brace_next": L != "Python" and self.chance(0.5 if L == "C#" else 0.2)}
